@@ -257,6 +257,30 @@ class Run:
             alldivs.extend(divs)
         return alldivs, total
 
+    def known_findings(self):
+        """findings of this property: run the witness on the implementation; still failing and listed
+        as known -> KNOWN-FINDING line; still failing and not listed -> violation"""
+        from checklib import findings
+        listed = findings.listed()
+        for fid, (pid, engine, witness, pred) in findings.DETECTORS.items():
+            if pid != self.pid:
+                continue
+            wp = os.path.join(ROOT, witness)
+            if engine.startswith('custom:'):
+                fails, detail = pred(self)
+            else:
+                ops, impl, model, crash = self.run_pair(engine, wp, f'finding-{fid}')
+                fails, detail = pred(impl), ''
+            entry = listed.get(fid)
+            if fails and entry and entry.get('status') == 'known':
+                self.known_lines.append(f'KNOWN-FINDING: property={self.pid} {entry["signature"]}')
+            elif fails:
+                rp = self.write_replay(f'finding-{fid}', {'property': self.pid, 'finding': fid, 'witness': witness, 'detail': detail,
+                                                           'note': 'reproduces on the implementation and is not listed as known in known_findings.json'})
+                self.violations.append((f'finding {fid} reproduces and is not an accepted known finding', rp, True))
+            elif entry and entry.get('status') == 'known':
+                self.notes.append(f'known finding {fid} no longer reproduces on this tree')
+
     # ------------------------------------------------------------------ top level
     def check(self):
         ob = self.lean_obligations()
@@ -285,6 +309,7 @@ class Run:
             extra = self.prop.get('extra')
             if extra:
                 extra(self)
+            self.known_findings()
         if ob['broken']:
             found = any(v[2] for v in self.violations)
             if not found:
